@@ -8,7 +8,7 @@ use crate::sim::{finish_result, Hist, HistResult, Last, Params};
 use crate::subject::{Ctor, How, Kind};
 use crate::world::{KState, SrcStep, UpStep};
 
-pub const SCENARIOS: [&str; 8] = ["starve", "budget", "quiet_stale", "quiet_budget", "oscillate", "head_of_line", "wrap", "big_cap"];
+pub const SCENARIOS: [&str; 9] = ["starve", "budget", "quiet_stale", "quiet_budget", "oscillate", "head_of_line", "wrap", "big_cap", "cap0_adapters"];
 
 fn mix(a: u64, b: u64) -> u64 {
     let mut x = a ^ b.wrapping_mul(0x9E37_79B9_7F4A_7C15);
@@ -31,6 +31,7 @@ pub fn run_scenario(p: &Params, name: &str, idx: u64) -> HistResult {
         "head_of_line" => head_of_line(p, seed),
         "wrap" => wrap(p, seed),
         "big_cap" => big_cap(p, seed),
+        "cap0_adapters" => cap0_adapters(p, seed),
         _ => panic!("unknown scenario {name}"),
     }
 }
@@ -589,7 +590,7 @@ fn oscillate(p: &Params, seed: u64) -> HistResult {
         r.range(1, 40)
     } else if r.chance(1, 300) {
         // beyond the 2048-slot group (rare: these runs take seconds)
-        *r.pick(&[3100usize, 4200])
+        *r.pick(&[3100usize, 3300])
     } else {
         *r.pick(&[1usize, 2, 5, 31, 32, 33, 64, 65, 97, 200, 600])
     };
@@ -876,6 +877,58 @@ fn big_cap(p: &Params, seed: u64) -> HistResult {
     }
     if !w.has_violation() {
         h.finish(h.hash & 1 == 1, false);
+    }
+    finish_result(h)
+}
+
+// ---------------------------------------------------------------------- cap0_adapters (C14)
+
+/// `buffered_*(0)`: the documentation defines no behaviour for a limit of zero (nothing can ever be
+/// pulled), but whatever the adapter does, it must not keep its task spinning: with nothing held
+/// and nobody waking anything, polls must come back Pending *without* the task waker invoked.
+fn cap0_adapters(p: &Params, seed: u64) -> HistResult {
+    let mut h = Hist::new(seed, p.trace);
+    h.w.armed.set(crate::sim::prop_tag(p.prop));
+    let w = h.w.clone();
+    let kind = p.kind.unwrap_or_else(|| *h.rng.pick(&[Kind::BufU, Kind::BufO, Kind::TryBufU, Kind::TryBufO]));
+    let n = h.rng.range(1, 6);
+    let mut script = vec![UpStep::Item; n];
+    if h.rng.chance(1, 2) {
+        script.insert(h.rng.below(n), UpStep::Gap);
+    }
+    script.push(UpStep::End);
+    w.install_upstream(script, h.rng.below(5) as u8, 50, 0, 0);
+    if !h.construct(kind, Ctor::New, 0, 0, None) {
+        return finish_result(h);
+    }
+    h.flags.quiet_phases += 1;
+    let polls = h.rng.range(3, 8);
+    let mut quiet_seen = false;
+    for i in 0..polls {
+        let wk = if h.rng.chance(1, 3) { h.rng.below(3) } else { h.last_waker };
+        let r = h.poll(wk);
+        if w.has_violation() || h.subj.is_none() {
+            break;
+        }
+        if r == Last::Pending {
+            let woken = w.task_invoked_since(wk, h.last_start);
+            if !woken {
+                quiet_seen = true;
+            } else if i >= 2 || quiet_seen {
+                w.violation(
+                    "C14",
+                    if quiet_seen { "spurious_task_wake_when_idle" } else { "quiet_not_reached" },
+                    format!("{}: nothing is held, nobody wakes anything, yet poll #{i} invoked its task waker", h.desc),
+                );
+                break;
+            }
+        } else if r == Last::Done {
+            break;
+        }
+    }
+    // cancelled: whatever was pulled is dropped with the adapter
+    if !w.has_violation() {
+        h.finish(false, false);
     }
     finish_result(h)
 }
